@@ -9,7 +9,8 @@ import Verif.Model.Validity
     renew_same_duration, renew_duration_within_second, acme_dates
     ssh_bounds, ssh_requested_exact, ssh_limit, ssh_no_crash, ssh_renew_same_duration
     acme_order_exact, ssh_default_crash_iff, ssh_sign_aborts_on_negative_default,
-    ssh_renew_no_crash, ssh_renew_forever_aborts, ssh_renew_292y_aborts
+    identity_sign_exact, identity_renew_matches_ssh, migration_preserves_effective
+    ssh_renew_no_crash; historic: ssh_renew_forever_aborted_before, ssh_renew_292y_aborted_before
     historic (pre-fix code): ssh_bounds_unguarded_refuted (D6), ssh_no_crash_unguarded_refuted (D7)
 -/
 open Verif Verif.Validity
@@ -995,37 +996,89 @@ theorem ssh_no_crash_unguarded_refuted :
   intro h
   exact h d6now { va := { t := 61819977600 * second } } ⟨0#64, 0#64, userCert⟩ (by decide)
 
-/-- **ssh_renew_same_duration.** `renewSSH` / `rekeySSH` issue a certificate that starts at the
-    authority's clock minus the backdate and lasts exactly as many seconds as the one it replaces
-    (for every certificate the validator can have issued: lifetime ≤ 9223372036 s). -/
-theorem ssh_renew_same_duration (anow bd : Int) (old c : SshCert)
-    (hle : old.va.toNat ≤ old.vb.toNat) (hsmall : old.vb.toNat - old.va.toNat ≤ 9223372036)
-    (hbd : 0 ≤ bd) (hbd2 : bd ≤ maxI64) (hnow : unixOf anow < 4611686018427387904)
-    (h : sshRenewDates anow bd old = .ok c) :
-    (c.vb.toNat : Int) - c.va.toNat = (old.vb.toNat : Int) - old.va.toNat ∧
-    (c.va.toNat : Int) = unixOf (anow - bd) ∧ c.ctype = old.ctype := by
-  unfold sshRenewDates at h
-  simp only [castU64_bind, castI64_bind] at h
-  have hs : ((old.vb - old.va).toNat : Int) = (old.vb.toNat : Int) - old.va.toNat := by
+/-- the three refusals of the repaired `renewSSH` / `rekeySSH` peeled off -/
+theorem sshRenewDates_cases (anow bd : Int) (old : SshCert) :
+    (sshRenewDates anow bd old = .rej .noValidity) ∨ (sshRenewDates anow bd old = .rej .renewPeriod) ∨
+    (old.va.toNat ≤ old.vb.toNat ∧ old.vb.toNat - old.va.toNat ≤ 9223372036 ∧
+      sshRenewDates anow bd old =
+        (castU64 (unixOf (anow + wrap64 (-1 * bd))) >>= fun va =>
+         castU64 (unixOf (anow + wrap64 (secsToDur ((old.vb.toNat : Int) - old.va.toNat) - bd))) >>= fun vb =>
+         pure { old with va := va, vb := vb })) := by
+  have e : sshRenewDates anow bd old =
+      if old.va = 0#64 ∨ old.vb = 0#64 then .rej .noValidity
+      else if old.vb < old.va then .rej .renewPeriod
+      else if (old.vb - old.va).toNat > 9223372036 then .rej .renewPeriod
+      else (castI64 (old.vb - old.va) >>= fun di =>
+        castU64 (unixOf (anow + wrap64 (-1 * bd))) >>= fun va =>
+        castU64 (unixOf (anow + wrap64 (secsToDur di - bd))) >>= fun vb =>
+        pure { old with va := va, vb := vb }) := rfl
+  rw [e]
+  by_cases h0 : old.va = 0#64 ∨ old.vb = 0#64
+  · left; rw [if_pos h0]
+  rw [if_neg h0]
+  by_cases h1 : old.vb < old.va
+  · right; left; rw [if_pos h1]
+  rw [if_neg h1]
+  by_cases h2 : (old.vb - old.va).toNat > 9223372036
+  · right; left; rw [if_pos h2]
+  rw [if_neg h2]
+  right; right
+  rw [BitVec.lt_def] at h1
+  have hs : (old.vb - old.va).toNat = old.vb.toNat - old.va.toNat := by
     rw [BitVec.toNat_sub]
     have := old.va.isLt
     have := old.vb.isLt
     omega
-  rw [hs, secsToDur_small _ (by omega) (by omega), wrap64_neg _ hbd hbd2,
+  refine ⟨by omega, by omega, ?_⟩
+  rw [castI64_bind, if_neg (by omega), hs]
+  have : ((old.vb.toNat - old.va.toNat : Nat) : Int) = (old.vb.toNat : Int) - old.va.toNat := by omega
+  rw [this]
+
+/-- inversion of the repaired `renewSSH` / `rekeySSH` date arithmetic -/
+theorem sshRenewDates_ok {anow bd : Int} {old c : SshCert} (hbd : 0 ≤ bd) (hbd2 : bd ≤ maxI64)
+    (h : sshRenewDates anow bd old = .ok c) :
+    old.va.toNat ≤ old.vb.toNat ∧ old.vb.toNat - old.va.toNat ≤ 9223372036 ∧
+    0 ≤ unixOf (anow - bd) ∧
+    c = ⟨BitVec.ofInt 64 (unixOf (anow - bd)),
+         BitVec.ofInt 64 (unixOf (anow + (((old.vb.toNat : Int) - old.va.toNat) * 1000000000 - bd))), old.ctype⟩ := by
+  rcases sshRenewDates_cases anow bd old with h0 | h0 | ⟨h1, h2, h3⟩
+  · rw [h0] at h; cases h
+  · rw [h0] at h; cases h
+  rw [h3] at h
+  simp only [castU64_bind] at h
+  rw [secsToDur_small _ (by omega) (by omega), wrap64_neg _ hbd hbd2,
     wrap64_id _ (by unfold minI64 maxI64 at *; omega) (by unfold maxI64 at *; omega)] at h
-  split at h
-  · cases h
-  split at h
-  · cases h
-  split at h
-  · cases h
-  split at h
-  · cases h
+  have e : anow + -bd = anow - bd := by omega
+  rw [e] at h
+  by_cases ha : unixOf (anow - bd) < 0
+  · rw [if_pos ha] at h; cases h
+  rw [if_neg ha] at h
+  by_cases hb : unixOf (anow + (((old.vb.toNat : Int) - old.va.toNat) * 1000000000 - bd)) < 0
+  · rw [if_pos hb] at h; cases h
+  rw [if_neg hb] at h
   cases h
+  exact ⟨h1, h2, by omega, rfl⟩
+
+/-- **ssh_renew_same_duration** (full strength since fix b334f43).  For EVERY old certificate — any
+    `ValidAfter`, `ValidBefore`, including `vb < va`, 0 and "forever" — when `renewSSH` / `rekeySSH`
+    issue, the new certificate starts at the authority's clock minus the backdate, lasts exactly as many
+    seconds as the one it replaces, that lifetime is ≤ 9223372036 s (292 years), and the new
+    `ValidBefore` is below 2⁶³ (so `cast.Uint64(va.Unix())`, `cast.Uint64(vb.Unix())` and every later
+    `cast.Int64` on the new certificate cannot fail). -/
+theorem ssh_renew_same_duration (anow bd : Int) (old c : SshCert)
+    (hbd : 0 ≤ bd) (hbd2 : bd ≤ maxI64) (hnow : unixOf anow < 4611686018427387904)
+    (h : sshRenewDates anow bd old = .ok c) :
+    (c.vb.toNat : Int) - c.va.toNat = (old.vb.toNat : Int) - old.va.toNat ∧
+    (c.vb.toNat : Int) - c.va.toNat ≤ 9223372036 ∧
+    (c.va.toNat : Int) = unixOf (anow - bd) ∧ c.vb.toNat < 9223372036854775808 ∧ c.ctype = old.ctype := by
+  obtain ⟨h1, h2, h3, h4⟩ := sshRenewDates_ok hbd hbd2 h
+  subst h4
   simp only []
   unfold unixOf second unixToInternal maxI64 at *
-  rw [toNat_ofInt_small _ (by omega) (by omega), toNat_ofInt_small _ (by omega) (by omega)]
-  refine ⟨by omega, by omega, trivial⟩
+  have e1 := toNat_ofInt_small ((anow - bd) / 1000000000 - 62135596800) (by omega) (by omega)
+  have e2 := toNat_ofInt_small ((anow + (((old.vb.toNat : Int) - old.va.toNat) * 1000000000 - bd)) / 1000000000 - 62135596800)
+    (by omega) (by omega)
+  refine ⟨by omega, by omega, by omega, by omega, trivial⟩
 
 example : sshRenewDates (d6now + 5) (60 * second) ⟨1700000000#64, 1700057600#64, userCert⟩ =
     .ok ⟨1764403140#64, 1764460740#64, userCert⟩ := by decide
@@ -1116,47 +1169,141 @@ example : sshSignWith ⟨hardcoded, some { defUser := some (-3600 * second) }⟩
 
 /-! ### renewSSH / rekeySSH on an authorized certificate (the `cast.Int64(ValidBefore − ValidAfter)` site) -/
 
-/-- For every certificate the validity validator can have issued (`va ≤ vb`, lifetime ≤ 9223372036 s)
-    the conversions in `renewSSH` / `rekeySSH` cannot fail (clock − backdate not before 1970); and once
-    it also passed the renewal gate, the later `cast.Int64(ValidBefore)` of api/sshRenew.go and
-    api/sshRekey.go cannot fail either. -/
-theorem ssh_renew_no_crash (unixNow anow bd : Int) (allowExpired : Bool) (old : SshCert)
-    (hle : old.va.toNat ≤ old.vb.toNat) (hsmall : old.vb.toNat - old.va.toNat ≤ 9223372036)
-    (hbd : 0 ≤ bd) (hbd2 : bd ≤ maxI64) (hclk : 0 ≤ unixOf (anow - bd)) (hnow : unixNow < 4611686018427387904) :
-    sshRenewDates anow bd old ≠ .crash ∧
-    (renewGate unixNow allowExpired old = true → old.va.toNat < 9223372036854775808 ∧ old.vb.toNat < 9223372036854775808) := by
-  constructor
-  · unfold sshRenewDates
-    simp only [castU64_bind, castI64_bind]
-    have hs : ((old.vb - old.va).toNat : Int) = (old.vb.toNat : Int) - old.va.toNat := by
-      rw [BitVec.toNat_sub]
-      have := old.va.isLt
-      have := old.vb.isLt
-      omega
-    rw [hs, secsToDur_small _ (by omega) (by omega), wrap64_neg _ hbd hbd2,
+/-- **ssh_renew_no_crash** (full strength since fix b334f43).  For EVERY old certificate (any two 64-bit
+    bounds) `renewSSH` never aborts, and `rekeySSH` (which then runs the SSHPOP validators) does not
+    either; the only deployment hypotheses are `0 ≤ backdate` and a clock such that clock − backdate is
+    not before 1970.  Moreover a certificate that passed the renewal gate and was renewed has
+    `ValidAfter, ValidBefore < 2⁶³`, so the `cast.Int64(oldCert.ValidAfter/ValidBefore)` of
+    api/sshRenew.go and api/sshRekey.go cannot fail after a successful renewal. -/
+theorem ssh_renew_no_crash (cl : Claimer) (unixNow anow pnow bd : Int) (allowExpired : Bool) (old : SshCert)
+    (hbd : 0 ≤ bd) (hbd2 : bd ≤ maxI64) (hclk : 0 ≤ unixOf (anow - bd)) (hpnow : 0 ≤ unixOf pnow)
+    (hnow : unixNow < 4611686018427387904) :
+    sshRenewDates anow bd old ≠ .crash ∧ sshRekey cl anow pnow bd old ≠ .crash ∧
+    (∀ c, renewGate unixNow allowExpired old = true → sshRenewDates anow bd old = .ok c →
+      old.va.toNat < 9223372036854775808 ∧ old.vb.toNat < 9223372036854775808) := by
+  have hnc : sshRenewDates anow bd old ≠ .crash := by
+    rcases sshRenewDates_cases anow bd old with h0 | h0 | ⟨h1, h2, h3⟩
+    · rw [h0]; intro hh; cases hh
+    · rw [h0]; intro hh; cases hh
+    rw [h3]
+    simp only [castU64_bind]
+    rw [secsToDur_small _ (by omega) (by omega), wrap64_neg _ hbd hbd2,
       wrap64_id _ (by unfold minI64 maxI64 at *; omega) (by unfold maxI64 at *; omega)]
+    have e : anow + -bd = anow - bd := by omega
+    rw [e]
     unfold unixOf second unixToInternal at *
     nocrash_finish
-  · intro hg
+  refine ⟨hnc, ?_, ?_⟩
+  · unfold sshRekey
+    apply Out.bind_not_crash hnc
+    intro c _
+    apply Out.bind_not_crash (sshValidityValid_nocrash cl pnow bd c hpnow)
+    intro _ _
+    apply Out.bind_not_crash (sshDefaultValid_nocrash pnow c hpnow)
+    intro _ _ hh
+    cases hh
+  · intro c hg hok
+    obtain ⟨h1, h2, _, _⟩ := sshRenewDates_ok hbd hbd2 hok
     unfold renewGate at hg
     split at hg
     · cases hg
-    · rename_i h1
+    · rename_i hva
       omega
 
-/-- The gates alone do not suffice: a certificate valid "forever" (`ValidBefore = CertTimeInfinity`),
-    signed with the CA's SSH key, passes `DefaultAuthorizeSSHRenew` (and `SSHPOP.authorizeToken`), and
-    `renewSSH` / `rekeySSH` then abort in `cast.Int64(ValidBefore − ValidAfter)`.  step-ca itself never
-    issues such a certificate (`ssh_bounds`); one made with the CA key by other means does it. -/
-theorem ssh_renew_forever_aborts :
-    renewGate 1764403200 false ⟨1#64, certTimeInfinity, hostCert⟩ = true ∧
-    sshRenewDates d6now (60 * second) ⟨1#64, certTimeInfinity, hostCert⟩ = .crash := by decide
+example : sshRenewDates d6now (60 * second) ⟨1#64, certTimeInfinity, hostCert⟩ = .rej .renewPeriod := by decide
+example : sshRenewDates d6now (60 * second) ⟨1764403000#64, 10987775100#64, hostCert⟩ = .rej .renewPeriod := by decide
+example : sshRenewDates d6now (60 * second) ⟨100#64, 50#64, hostCert⟩ = .rej .renewPeriod := by decide
 
-/-- Same for a 292-year certificate (lifetime 9223372100 s): it passes the gates, the wrapping product
-    is about −292 years, and `cast.Uint64(vb.Unix())` aborts. -/
-theorem ssh_renew_292y_aborts :
+/-- **historic (fixed by b334f43).** Before the fix the gates alone did not suffice: a certificate valid
+    "forever" (`ValidBefore = CertTimeInfinity`), signed with the CA's SSH key, passes
+    `DefaultAuthorizeSSHRenew` (and `SSHPOP.authorizeToken`), and `renewSSH` / `rekeySSH` aborted in
+    `cast.Int64(ValidBefore − ValidAfter)`. -/
+theorem ssh_renew_forever_aborted_before :
+    renewGate 1764403200 false ⟨1#64, certTimeInfinity, hostCert⟩ = true ∧
+    sshRenewDatesBefore d6now (60 * second) ⟨1#64, certTimeInfinity, hostCert⟩ = .crash := by decide
+
+/-- **historic.** Same for a 292-year certificate (lifetime 9223372100 s): the wrapping product was about
+    −292 years and `cast.Uint64(vb.Unix())` aborted. -/
+theorem ssh_renew_292y_aborted_before :
     renewGate 1764403200 false ⟨1764403000#64, 10987775100#64, hostCert⟩ = true ∧
-    sshRenewDates d6now (60 * second) ⟨1764403000#64, 10987775100#64, hostCert⟩ = .crash := by decide
+    sshRenewDatesBefore d6now (60 * second) ⟨1764403000#64, 10987775100#64, hostCert⟩ = .crash := by decide
+
+/-! ### identity certificate; migration into the admin database -/
+
+
+theorem unixInstant_ok {x : U64} {t : Int} (h : unixInstant x = .ok t) (hr : reach x) :
+    t = ((x.toNat : Int) + unixToInternal) * second := by
+  unfold unixInstant at h
+  simp only [castI64_bind] at h
+  split at h
+  · cases h
+  have h' : wrap64 ((x.toNat : Int) + unixToInternal) * second = t := Out.ok.inj h
+  rw [← h']
+  unfold reach at hr
+  rw [wrap64_id _ (by unfold minI64 unixToInternal; omega) hr]
+
+/-- **identity_sign_exact.** The identity certificate issued together with an SSH certificate
+    (`/ssh/sign` with an identity CSR) takes exactly that SSH certificate's validity. -/
+theorem identity_sign_exact (c : SshCert) (i : Cert) (hva : reach c.va) (hvb : reach c.vb)
+    (h : identitySign c = .ok i) :
+    unixOf i.nb = c.va.toNat ∧ unixOf i.na = c.vb.toNat ∧ trunc i.nb = i.nb ∧ trunc i.na = i.na := by
+  unfold identitySign at h
+  obtain ⟨nb, h1, h2⟩ := Out.bind_ok h
+  obtain ⟨na, h3, h4⟩ := Out.bind_ok h2
+  cases h4
+  rw [unixInstant_ok h1 hva, unixInstant_ok h3 hvb]
+  simp only []
+  unfold unixOf trunc second unixToInternal
+  omega
+
+/-- **identity_renew_matches_ssh.** `/ssh/renew` and `/ssh/rekey` over mTLS: when both certificates are
+    issued, the renewed identity certificate has exactly the lifetime of the new SSH certificate (which is
+    the old one's, `ssh_renew_same_duration`) and, like it, starts at the clock minus the backdate — it
+    neither outlives the SSH certificate it comes with nor is stretched by the age of the old one. -/
+theorem identity_renew_matches_ssh (unixNow anow casNow bd : Int) (allowExpired : Bool) (old c : SshCert) (i : Cert)
+    (hbd : 0 ≤ bd) (hbd2 : bd ≤ maxI64) (hbds : trunc bd = bd)
+    (hnow : unixNow < 4611686018427387904) (hanow : unixOf anow < 4611686018427387904)
+    (hg : renewGate unixNow allowExpired old = true)
+    (h : sshRenewWithIdentity anow casNow bd old = .ok (c, i)) :
+    i.na - i.nb = ((c.vb.toNat : Int) - c.va.toNat) * second ∧
+    i.nb = trunc (casNow - bd) ∧ (c.va.toNat : Int) = unixOf (anow - bd) := by
+  unfold sshRenewWithIdentity at h
+  obtain ⟨c', h1, h2⟩ := Out.bind_ok h
+  obtain ⟨i', h3, h4⟩ := Out.bind_ok h2
+  cases h4
+  obtain ⟨k1, k2, _, _⟩ := sshRenewDates_ok hbd hbd2 h1
+  obtain ⟨s1, _, s3, _, _⟩ := ssh_renew_same_duration anow bd old c hbd hbd2 hanow h1
+  have hva : old.va.toNat < 9223372036854775808 ∧ (old.va.toNat : Int) ≤ unixNow := by
+    unfold renewGate at hg
+    split at hg
+    · cases hg
+    · omega
+  have hra : reach old.va := by unfold reach maxI64 unixToInternal; omega
+  have hrb : reach old.vb := by unfold reach maxI64 unixToInternal; omega
+  unfold identityRenew at h3
+  obtain ⟨w, h5, h6⟩ := Out.bind_ok h3
+  obtain ⟨w1, w2, w3, w4⟩ := identity_sign_exact old w hra hrb h5
+  have hd : w.na - w.nb = ((old.vb.toNat : Int) - old.va.toNat) * second := by
+    unfold unixOf trunc second at *; omega
+  have := renew_same_duration casNow bd w i ⟨w3, w4⟩ hbds hbd hbd2
+    (by rw [hd]; unfold second; omega) (by rw [hd]; unfold second maxI64; omega) h6
+  refine ⟨by rw [this.1, hd, s1], this.2, s3⟩
+
+/-- **migration_preserves_effective.** Moving a ca.json provisioner into the admin database and loading it
+    back (`claimsToLinkedca`, `claimsToCertificates`) leaves its effective X.509 durations — for every
+    subset of {min, max, default} it overrides — and the outcome of `Validate` unchanged; with the SSH CA
+    enabled for it, every effective duration is unchanged. -/
+theorem migration_preserves_effective (g : Full) (c : Option Claims) (ssh : Bool) :
+    let a : Claimer := ⟨g, c⟩
+    let b : Claimer := ⟨g, migrateClaims ssh c⟩
+    b.minTLS = a.minTLS ∧ b.maxTLS = a.maxTLS ∧ b.defTLS = a.defTLS ∧ b.validate = a.validate ∧
+    (ssh = true → b.merged = a.merged) := by
+  cases c with
+  | none => simp [migrateClaims]
+  | some c =>
+    cases ssh with
+    | true => simp [migrateClaims]
+    | false => exact ⟨rfl, rfl, rfl, rfl, fun h => by cases h⟩
 
 
 end Verif.Validity
